@@ -58,32 +58,36 @@ NodesIntegral(Mc, Mf, par, T) ==
 \* occurrences of every fine dof:  OCC[i + 1] = {<<f, li>>}
 Occurrences(Gf, ng) ==
   LET pairs == {<<f, li>> : f \in 1..Len(Gf), li \in 1..Len(Gf[1])} IN TLCEval([i \in 1..ng |-> {p \in pairs : Gf[p[1]][p[2]] = i - 1}])
-\* contributions to row i' (1-based i): set of <<f, li, lj, j, num>> with num # 0
-RowContribs(occ, NUM, Gc, par, dim) ==
-  UNION {{<<p[1], p[2], lj, Gc[ParentCell(par, dim, p[1])][lj], NUM[p[1]][p[2]][lj]>> : lj \in {l \in 1..Len(Gc[1]) : NUM[p[1]][p[2]][l] # 0}} : p \in occ}
-RowValue(contribs, j) == MapThenSumSet(LAMBDA t : t[5], {t \in contribs : t[4] = j})
-RowCols(contribs) == {t[4] : t \in contribs}
-\* (P x)[i'] * mult * LocalScale
-RowTimes(contribs, x) == MapThenSumSet(LAMBDA t : t[5] * x[t[4] + 1], contribs)
-
+\* the row contributed by ONE occurrence p = <<f, li>>: set of <<coarse dof j, numerator>> (non-zero numerators only)
+OccRow(p, NUM, Gc, par, dim) ==
+  LET c == ParentCell(par, dim, p[1]) IN
+  {<<Gc[c][lj], NUM[p[1]][p[2]][lj]>> : lj \in {l \in 1..Len(Gc[1]) : NUM[p[1]][p[2]][l] # 0}}
 \* H1-conforming families: every occurrence of a fine dof yields the same row
-ProlWellDefined(occ, NUM, Gc, par, dim) ==
-  \A p1, p2 \in occ :
-    \A lj \in 1..Len(Gc[1]) :
-      LET j == Gc[ParentCell(par, dim, p1[1])][lj]
-          c2 == ParentCell(par, dim, p2[1])
-          L2 == {l \in 1..Len(Gc[1]) : Gc[c2][l] = j}
-      IN NUM[p1[1]][p1[2]][lj] = (IF L2 = {} THEN 0 ELSE NUM[p2[1]][p2[2]][CHOOSE l \in L2 : TRUE])
+ProlWellDefined(occ, NUM, Gc, par, dim) == Cardinality({OccRow(p, NUM, Gc, par, dim) : p \in occ}) = 1
+\* the specified row of a fine dof as a set of <<j, numerator>> over the denominator  mult * LocalScale :
+\* the sum over the occurrences (mult = number of occurrences)
+SummedRow(occ, NUM, Gc, par, dim) ==
+  LET all == UNION {{<<p, t[1], t[2]>> : t \in OccRow(p, NUM, Gc, par, dim)} : p \in occ}      \* <<occurrence, j, num>>
+      J == {t[2] : t \in all}
+  IN {<<j, MapThenSumSet(LAMBDA t : t[3], {t \in all : t[2] = j})>> : j \in J}
+\* [row |-> set of <<j, numerator>>, den |-> denominator / LocalScale]: for a well-defined row the common row itself (den 1)
+SpecRow(occ, NUM, Gc, par, dim, wd) ==
+  IF wd THEN [row |-> OccRow(CHOOSE p \in occ : TRUE, NUM, Gc, par, dim), den |-> 1]
+  ELSE [row |-> SummedRow(occ, NUM, Gc, par, dim), den |-> Cardinality(occ)]
+\* (P x)[i'] * den * LocalScale
+RowTimes(sr, x) == MapThenSumSet(LAMBDA t : t[2] * x[t[1] + 1], sr.row)
 
-\* an observed sparse row: [c |-> <<columns>>, v |-> <<integer values at scale ps>>]; value of column j
-RowGet(row, j) == LET K == {k \in 1..Len(row.c) : row.c[k] = j} IN IF K = {} THEN 0 ELSE row.v[CHOOSE k \in K : TRUE]
-RowSupport(row) == {row.c[k] : k \in {q \in 1..Len(row.c) : row.v[q] # 0}}
+\* an observed sparse row: [c |-> <<columns>>, v |-> <<integer values at scale ps>>]
+RowSet(row) == {<<row.c[k], row.v[k]>> : k \in {q \in 1..Len(row.c) : row.v[q] # 0}}
+ColsDistinct(row) == Cardinality({row.c[k] : k \in 1..Len(row.c)}) = Len(row.c)
 \* the observed row equals the specified one: ps = scale of the observed integers, ls = LocalScale (ps is a multiple of ls)
-RowMatches(row, contribs, mult, ps, ls) ==
-  /\ RowSupport(row) \subseteq RowCols(contribs)
-  /\ \A j \in RowCols(contribs) : RowGet(row, j) * mult = RowValue(contribs, j) * (ps \div ls)
+RowMatches(row, sr, ps, ls) ==
+  /\ ColsDistinct(row)
+  /\ {<<t[1], t[2] * sr.den>> : t \in RowSet(row)} = {<<t[1], t[2] * (ps \div ls)>> : t \in {u \in sr.row : u[2] # 0}}
+\* observed matrix (rows) times integer vector
+RowDot(row, y) == FoldSeq(LAMBDA k, acc : acc + row.v[k] * y[row.c[k] + 1], 0, [k \in 1..Len(row.c) |-> k])
 
 Triples(rows) == UNION {{<<i, rows[i].c[k], rows[i].v[k]>> : k \in {q \in 1..Len(rows[i].c) : rows[i].v[q] # 0}} : i \in 1..Len(rows)}
-IsTranspose(rowsR, rowsP) == {<<t[2] + 1, t[1] - 1, t[3]>> : t \in Triples(rowsP)} = Triples(rowsR)
+IsTranspose(rowsR, rowsP) == TLCEval({<<t[2] + 1, t[1] - 1, t[3]>> : t \in Triples(rowsP)}) = TLCEval(Triples(rowsR))
 IsIdentity(rows, one) == Triples(rows) = {<<i, i - 1, one>> : i \in 1..Len(rows)}
 =============================================================================
